@@ -21,9 +21,9 @@ func init() {
 		Explanation: "Decided: R08-astkinds — producer/consumer exhaustiveness over the AST sum types: every concrete type implementing ast.Expr is a case of compileExpr, every ast.Stmt a case of compileStmt, every left-hand-side type the grammar can produce is a case of compileAssignStmtLeft, and every operator string the grammar writes into Arithmetic/Relational/LogicalOpExpr is handled by the corresponding compile switch and by constFold; " +
 			"R08-panics — panic discipline on the load path: every explicit panic in package parse carries a value whose static type implements error (otherwise Parse's 'err, _ = e.(error)' turns a failure into (nil, nil)); every explicit panic reachable from lua.Compile is a *CompileError or one of four shape-guarded sentinels that R08-astkinds makes unreachable; Load wraps both error sources as ApiErrorSyntax and contains no panic; " +
 			"R08-eof — 'never hangs': every loop in the scanner that consumes input leaves the loop when the current character is EOF (decided by partial evaluation of the loop's exit conditions with every character-producing call returning -1; pure predicates isIdent/isDecimal/isDigit are evaluated on -1). " +
-			"R08-comment — a long-bracket comment ends at its closing bracket: skipComments consumes no further input after scanMultilineString has returned (program text after an inline --[[ ]] on the same line is kept). NOT decided: run-time (index / nil / assertion) panics inside compile.go, termination of the generated LALR driver, that all Lua 5.1 texts are accepted.",
+			"R08-comment — a long-bracket comment ends at its closing bracket: skipComments consumes no further input after scanMultilineString has returned (program text after an inline --[[ ]] on the same line is kept). R19-buffers/R17-rawread shared — LoadFile skips a first '#' line through the one line reader (whole, however long) and gives its newline back. NOT decided: run-time (index / nil / assertion) panics inside compile.go, termination of the generated LALR driver, that all Lua 5.1 texts are accepted.",
 		Trusted: []string{"the goyacc-generated driver terminates on every token sequence"},
-		Rules:   []func(*Ctx){ruleAstKinds, ruleLoadPanics, ruleEOF, ruleTerminate, ruleLongComment},
+		Rules:   []func(*Ctx){ruleAstKinds, ruleLoadPanics, ruleEOF, ruleTerminate, ruleLongComment, ruleOneLineReader, ruleShebangLine},
 	})
 }
 
@@ -826,6 +826,24 @@ func ruleLongComment(c *Ctx) {
 			up, _, hasUp, _ := bounds(eg, cl, cv.X)
 			if !hasUp || up > 255 {
 				okc = false
+			}
+			// the guard must be able to fire: the parse that produced the value (its error is not looked at)
+			// has to be wide enough to represent what three digits can spell, otherwise strconv saturates at
+			// the type's maximum and 'val > 255' is never true
+			if ex, ok := cv.X.(*ssa.Extract); ok {
+				if pc, ok := ex.Tuple.(*ssa.Call); ok {
+					if pk, n, ok := stdCall(pc); ok && pk == "strconv" && (n == "ParseInt" || n == "ParseUint") && len(pc.Call.Args) == 3 {
+						if bits, ok := constInt(pc.Call.Args[2]); ok && bits != 0 {
+							max := int64(1)<<uint(bits) - 1
+							if n == "ParseInt" {
+								max = int64(1)<<uint(bits-1) - 1
+							}
+							if max < 999 {
+								okc = false
+							}
+						}
+					}
+				}
 			}
 		}
 		c.check(found && okc, R, "scanEscape:decimal-escape-is-a-byte", p.pos(esc.Pos()), "\\ddd is written only when ddd <= 255", "scanEscape writes a decimal escape without checking it against 255: '\\300' silently becomes byte 44 instead of the error 'escape sequence too large'")
